@@ -15,7 +15,7 @@ from ..prop import Prop
 from ..ref import frames
 from .. import ops
 
-ALPHABET = ["connect", "op_ok", "op_raise", "drop", "disconnect", "refused", "ctx_ok", "ctx_exc", "op_big", "connect_cancelled", "disconnect_during_op"]
+ALPHABET = ["connect", "op_ok", "op_raise", "drop", "disconnect", "refused", "ctx_ok", "ctx_exc", "op_big", "connect_cancelled", "disconnect_during_op", "disconnect_twice_at_once"]
 
 
 class Boom(Exception):
@@ -68,7 +68,7 @@ def legal(history):
         elif a in ("op_ok", "op_raise", "drop", "op_big"):
             if not connected:
                 return False
-        elif a == "disconnect":
+        elif a in ("disconnect", "disconnect_twice_at_once"):
             connected = False
     return True
 
@@ -95,7 +95,7 @@ class C18(Prop):
             "and the client keeps using it, disconnect, refused connect (the device gone, or only this protocol's port closed), async-with with normal body, async-with whose body raises, operation answered with 6 KB, connect cancelled after 0..4 loop cycles followed by a reconnect, disconnect from another task while an operation waits for its reply}; all legal "
             "histories of length <= 4 for both API classes (exhaustive, both tiers) plus random legal histories of length 5..10; distinct = "
             "(api type, history); a second, independent instance stays connected to another device throughout and must be unaffected; non-trivial = histories containing a failure action (op_raise, drop, refused, ctx_exc) or a reconnect")
-    level_text = ("All legal action histories up to length 4 over an 11-letter alphabet are enumerated for both API classes on every run, longer "
+    level_text = ("All legal action histories up to length 4 over a 12-letter alphabet are enumerated for both API classes on every run, longer "
                   "ones sampled; after each action the flag is compared with the model and after each disconnect the device must observe end-of-stream.")
     level_note = "connect while connected and operations while disconnected are outside the statement; whether disconnect() raises after a device-side drop is not judged, only the flag and the socket"
     assumptions = ["an operation 'raises' by receiving an empty login reply", "refused connect = the device's listener is closed"]
@@ -162,6 +162,15 @@ class C18(Prop):
         api = cls(dev.ip, "a1b2c3", "18")
         # a second, independent instance that stays connected to another device for the whole history
         bystander = cls(self.dev2.ip, "d4e5f6", "27")
+        if env.sig("copies", t, history) % 3 == 0:
+            # an application that keeps one unconnected template per device family and copies it for every use
+            import copy
+
+            template = cls("192.0.2.1", "000000", "00")
+            api, bystander = copy.copy(template), copy.copy(template)
+            api._ip_address, api._device_id, api._device_key = dev.ip, "a1b2c3", "18"
+            bystander._ip_address, bystander._device_id, bystander._device_key = self.dev2.ip, "d4e5f6", "27"
+            acc.count("histories_on_copies_of_one_template")
         n2 = len(self.dev2.conns)
         try:
             await bystander.connect()
@@ -408,6 +417,19 @@ class C18(Prop):
                 out3 = await do_op()
                 mode["login"] = "ok"
                 trace.append(f"drop {out1} {out2} {out3}")
+            elif a == "disconnect_twice_at_once":
+                # two tasks of the application disconnect the same client at the same time (a watchdog and the owner)
+                results = await asyncio.gather(bounded(api.disconnect()), bounded(api.disconnect()), return_exceptions=True)
+                trace.append(f"two disconnects at once: {[type(x).__name__ if x is not None else 'ok' for x in results]}")
+                for x in results:
+                    if isinstance(x, Hung):
+                        hung("disconnect", x)
+                    elif isinstance(x, BaseException) and not cur["dropped"]:
+                        acc.violation("disconnect-raised", f"type {t} history {history}: one of two concurrent disconnect() calls raised {type(x).__name__}: {x}",
+                                      {"history": history, "trace": trace})
+                model = False
+                await expect_eof(a)
+                cur["conn"] = None
             elif a == "disconnect":
                 try:
                     await bounded(api.disconnect())
